@@ -156,8 +156,9 @@ var c40Topics = []string{"orders", "events", "a:b"}
 // stale-config = stored topic configs whose partition count / replication factor disagree with the live
 // topic (what CreatePartitions after AlterConfigs leaves on the etcd store); grown = topics grown by
 // CreatePartitions after their config and offsets were stored; bare = topics only (no offsets, groups,
-// commits or configs).
-var c40Worlds = []string{"base", "stale-config", "grown", "bare"}
+// commits or configs); ahead = committed offsets that lie above the partition's log end (what a restore to an
+// earlier point, or a commit made by an admin tool, leaves behind) next to commits at and below it.
+var c40Worlds = []string{"base", "stale-config", "grown", "bare", "ahead"}
 
 func c40NewStore(t testing.TB, world string) *metadata.InMemoryStore {
 	ctx := context.Background()
@@ -207,6 +208,11 @@ func c40NewStore(t testing.TB, world string) *metadata.InMemoryStore {
 		must(st.CreatePartitions(ctx, "events", 3))
 		must(st.CreatePartitions(ctx, "orders", 4))
 		must(st.UpdateOffsets(ctx, "orders", 3, 7))
+	case "ahead":
+		must(st.CommitConsumerOffset(ctx, "g1", "orders", 0, 99, "ahead"))  // log end 42
+		must(st.CommitConsumerOffset(ctx, "g-2", "orders", 1, 7, "at-end")) // log end 7
+		must(st.CommitConsumerOffset(ctx, "g-2", "a:b", 0, 4, "one-ahead")) // log end 3
+		must(st.CommitConsumerOffset(ctx, "g:3", "events", 0, 5, ""))       // nothing produced
 	}
 	return st
 }
@@ -607,7 +613,7 @@ func TestVerifC40(t *testing.T) {
 	defer rep.Finish()
 	rep.Rule = "cases = (a) every tool advertised by the real NewServer (tools/list over the SDK's in-memory transport) x every argument object built from its input schema (per property: absent, null, wrong type, and the name / list alphabets; plus no arguments, {}, null, unknown property, non-object) x metrics provider {nil, ok, error, nil snapshot} (tools without properties) x injected read failure at store read #{none,1,2}; (b) each of the 8 handler constructors called directly with typed inputs (nil and empty slices, the same alphabets, nil request). signature = mode | tool | result class (ok + list lengths / error class) | metrics variant | sequence of store methods reached; non-trivial = the call reached the store"
 	rep.Assumptions = []string{
-		"the cluster state is the metadata.Store the server was given (recording wrapper over a metadata.InMemoryStore in each of the worlds base / stale-config / grown / bare); the etcd-backed store is not exercised",
+		"the cluster state is the metadata.Store the server was given (recording wrapper over a metadata.InMemoryStore in each of the worlds base / stale-config / grown / bare / ahead); the etcd-backed store is not exercised",
 		"mutating methods = UpdateOffsets, CommitConsumerOffset, PutConsumerGroup, DeleteConsumerGroup, UpdateTopicConfig, CreatePartitions, CreateTopic, DeleteTopic",
 	}
 	var rc c40Case
